@@ -54,6 +54,7 @@ type world struct {
 
 type setFocus struct{ target string }
 type reveal struct{ name string }
+type hide struct{ name string }
 type custom struct{}
 type marked struct{ id string } // a node configured in cmdOn returns its command when it sees this
 
@@ -120,6 +121,12 @@ func (n *node) special(ev vaxis.Event) (vxfw.Command, bool) {
 		return vxfw.BatchCmd{vxfw.FocusWidgetCmd(n.wd.nodes[ev.target]), vxfw.ConsumeEventCmd{}}, true
 	case reveal:
 		delete(n.wd.hidden, ev.name)
+		return vxfw.BatchCmd{vxfw.RedrawCmd{}, vxfw.ConsumeEventCmd{}}, true
+	case hide:
+		if n.wd.hidden == nil {
+			n.wd.hidden = map[string]bool{}
+		}
+		n.wd.hidden[ev.name] = true
 		return vxfw.BatchCmd{vxfw.RedrawCmd{}, vxfw.ConsumeEventCmd{}}, true
 	case vaxis.Resize:
 		return nil, true
@@ -793,6 +800,41 @@ func commandSweep() {
 				rig.Stop()
 			}
 		}
+		// the focused widget leaves the tree (a dialog is closed): the next frame moves the focus to the root -
+		// one focus-out to the widget that left, one focus-in to the root, the next event targeted at the root
+		for _, gone := range ns[1:] {
+			wd, rig := startRig(t, map[string]bool{})
+			wd.focus(gone)
+			wd.log = nil
+			rig.Post(hide{gone})
+			rig.Tick()
+			rig.Post(custom{})
+			r.Count("command_cases", 1)
+			var notes []string
+			target := ""
+			for _, l := range wd.log {
+				if strings.HasSuffix(l, ":focus-out:target") || strings.HasSuffix(l, ":focus-in:target") {
+					notes = append(notes, strings.TrimSuffix(l, ":target"))
+				}
+				if strings.HasSuffix(l, ":custom:target") {
+					target = strings.TrimSuffix(l, ":custom:target")
+				}
+			}
+			want := []string{gone + ":focus-out", "root:focus-in"}
+			bad := ""
+			switch {
+			case strings.Join(notes, " ") != strings.Join(want, " "):
+				bad = fmt.Sprintf("focus notifications %v, want %v", notes, want)
+			case target != "root":
+				bad = fmt.Sprintf("the next event had %q as its target, want the root", target)
+			}
+			if bad != "" {
+				r.Violation("C15|focus-leaves-tree", 0, detail{Tree: t.name, Setup: "focus " + gone + ", then " + gone + " is left out of the layout", Event: "frame, then a custom event", Got: wd.log, Why: bad})
+			} else {
+				r.Distinct(explore.Hash("focus-gone", t.name, gone))
+			}
+			rig.Stop()
+		}
 		// RefreshCmd takes effect once: the frame after a refresh frame is an ordinary one again (it writes
 		// what an ordinary frame of the unchanged screen wrote before the refresh)
 		{
@@ -968,7 +1010,7 @@ func main() {
 	n := r.Get("routing_cases") + r.Get("hover_cases") + r.Get("command_cases") + r.Get("notification_cases") + r.Get("relayout_cases")
 	r.Finish(explore.Coverage{
 		States: -1, Transitions: n, Traces: n, Evaluations: n,
-		Rule:       "8 widget trees (1-4 nodes, depth <= 3, disjoint and overlapping siblings with both z orders) on a 6x3 screen with a 5x3 root; routing: every capturer mask x every focus position x every assignment of a consuming phase to at most two nodes x {key (injected as terminal input), custom event}, and a press at every screen cell, each compared with a reference router (capture root-down, target, bubble up, stop at the first consumer; the target's own capture handler left open); hover: every sequence of <= n steps over {pointer motion at 6 points incl. outside the root, terminal focus out/in, frame} followed by a focus-out and a frame: per widget enter/leave must alternate starting with enter, end closed, and no enter may arrive between a terminal focus-out and the next pointer or focus-in event; notifications: with every widget consuming MouseEnter/MouseLeave/FocusIn/FocusOut (delivered outside the three phases), after each of 6 notification-raising steps the next key (arriving in the same read) is routed in full, for every capturer mask and focus position; re-layout within a frame: a menu opening under the resting pointer grows an item from its MouseEnter handler (the frame is laid out twice), the next press at each of the 15 cells follows the frame that was shown; re-layout: a focused leaf drawn alternately under two parents, a key after each frame follows the new ancestor chain, for every capturer mask; focus: every (old, new) pair gets exactly one focus-out and one focus-in; delegation: for every (old, via, new) triple with via answering FocusIn by focusing new, the four notifications in order and the next event targeted at new; commands: Redraw, Refresh, Quit, batches, nested batches each take effect exactly once (incl.: the frame after a refresh frame writes what an ordinary frame wrote before). All through the real App.Run on a fake console, stepped with virtual frame ticks. distinct = cases that passed",
+		Rule:       "8 widget trees (1-4 nodes, depth <= 3, disjoint and overlapping siblings with both z orders) on a 6x3 screen with a 5x3 root; routing: every capturer mask x every focus position x every assignment of a consuming phase to at most two nodes x {key (injected as terminal input), custom event}, and a press at every screen cell, each compared with a reference router (capture root-down, target, bubble up, stop at the first consumer; the target's own capture handler left open); hover: every sequence of <= n steps over {pointer motion at 6 points incl. outside the root, terminal focus out/in, frame} followed by a focus-out and a frame: per widget enter/leave must alternate starting with enter, end closed, and no enter may arrive between a terminal focus-out and the next pointer or focus-in event; notifications: with every widget consuming MouseEnter/MouseLeave/FocusIn/FocusOut (delivered outside the three phases), after each of 6 notification-raising steps the next key (arriving in the same read) is routed in full, for every capturer mask and focus position; re-layout within a frame: a menu opening under the resting pointer grows an item from its MouseEnter handler (the frame is laid out twice), the next press at each of the 15 cells follows the frame that was shown; re-layout: a focused leaf drawn alternately under two parents, a key after each frame follows the new ancestor chain, for every capturer mask; focus: every (old, new) pair gets exactly one focus-out and one focus-in; delegation: for every (old, via, new) triple with via answering FocusIn by focusing new, the four notifications in order and the next event targeted at new; focused widget leaving the tree: one focus-out to it, one focus-in to the root, next event at the root; commands: Redraw, Refresh, Quit, batches, nested batches each take effect exactly once (incl.: the frame after a refresh frame writes what an ordinary frame wrote before). All through the real App.Run on a fake console, stepped with virtual frame ticks. distinct = cases that passed",
 		Exhaustive: true,
 		Bounds:     map[string]any{"hover_sequence_len": r.Pick(3, 4)},
 		Assumptions: []string{"whether the focused/target widget's own CaptureEvent runs is not fixed by the property and is accepted either way",
